@@ -36,6 +36,7 @@ func init() {
 			need(m, &out, "exhaustive_split_streams", 1000)
 			need(m, &out, "long_streams", 6)
 			need(m, &out, "endurance_sparse_streams", 8)
+			need(m, &out, "interior_section_headers_split_between_packets", 6)
 			need(m, &out, "streams_with_giant_units", 12)
 			need(m, &out, "streams_through_a_plain_reader", 300)
 			need(m, &out, "streams_after_an_initial_rewind", 150)
@@ -476,6 +477,23 @@ func runC02(c *mon.Ctx) {
 		c.Count("long_streams")
 		c.Max("long_stream_packets", int64(len(s.Packets)))
 		c.Case(mon.HashBytes("c02long", s.Bytes[:3760]), true)
+	}
+	// header-straddle: the header of an interior section starts 1, 2, 3 ... 183 bytes before the end of a packet payload (every
+	// residue; with 1 and 2 its three bytes are split between two packets), on the PAT PID, a PMT PID and an SI PID
+	for i := int64(0); i < 3*184; i++ {
+		before := int(i % 184)
+		if before == 0 || !c.Mine("header-straddle", i) {
+			continue
+		}
+		kind := []refts.TableKind{refts.KindPAT, refts.KindPMT, refts.KindSDT}[i/184]
+		s, _ := straddleStream(c.Rng("header-straddle", i), kind, before)
+		run := RunDemux(s.Bytes, baseCfg("data"))
+		checkStreamDelivery(c, "C02", "header-straddle", i, s, nil, run, false)
+		c.Count("interior_section_header_positions")
+		if before <= 2 {
+			c.Count("interior_section_headers_split_between_packets")
+		}
+		c.Case(mon.HashBytes("c02hs", s.Bytes), true)
 	}
 	// endurance: PIDs that stay silent while tens of thousands of packets of other PIDs pass (65536 and 131072 among the gaps)
 	for i := int64(0); i < c.Pick(8, 40); i++ {
